@@ -84,7 +84,10 @@ def to_datetime(obj):
         # dt is datetime.datetime(2017, 12, 4, 12, 0)
     """
 
-    if isinstance(obj, datetime):
+    if isinstance(obj, pd.Timestamp):
+        # (a datetime as well, but numpy cannot subtract it from datetimes)
+        return obj.to_pydatetime()
+    elif isinstance(obj, datetime):
         return obj
     else:
         return pd.to_datetime(obj).to_pydatetime()
